@@ -15,7 +15,7 @@ EXHAUSTIVE = {"quick": True, "thorough": True}
 FAULTS = ["numpy_input", "list_of_numpy", "none_input", "unknown_dim", "empty_dim", "all_dims_sample", "dim_wrong_type",
           "n_modes_zero", "n_modes_negative", "n_modes_float_zero", "n_modes_float_negzero", "n_modes_float_negative", "n_modes_float_gt1", "n_modes_str", "n_modes_none", "n_modes_list", "n_modes_gt_rank",
           "alpha_negative", "unknown_solver",
-          "tf_numpy", "tf_missing_dim", "tf_missing_sample_dim", "tf_extra_dim", "tf_renamed_dim", "tf_shifted_coord", "tf_revalued_coord", "tf_fewer_features",
+          "tf_numpy", "tf_missing_dim", "tf_missing_dim_scalar_coord", "tf_missing_dim_sel", "tf_missing_sample_dim", "tf_extra_dim", "tf_renamed_dim", "tf_shifted_coord", "tf_revalued_coord", "tf_fewer_features",
           "tf_dropped_variable", "tf_list_shorter", "tf_list_longer", "tf_da_for_list",
           "inv_unknown_mode", "inv_unknown_mode_normalized", "inv_numpy",
           "cross_sample_count", "cross_y_numpy"]
@@ -164,6 +164,11 @@ def run(case):
             res = outcome(lambda: tf(second(np.asarray(X.values))))
         elif fault == "tf_missing_dim":
             res = outcome(lambda: tf(second(X.isel(lon=0, drop=True))))
+        elif fault == "tf_missing_dim_scalar_coord":
+            # the usual way of taking a slice leaves the dimension behind as a SCALAR coordinate: the dimension is missing all the same
+            res = outcome(lambda: tf(second(X.isel(lon=1))))
+        elif fault == "tf_missing_dim_sel":
+            res = outcome(lambda: tf(second(X.sel(lat=X.lat.values[0]))))
         elif fault == "tf_missing_sample_dim":
             res = outcome(lambda: tf(second(X.isel(time=0, drop=True))))
         elif fault == "tf_extra_dim":
